@@ -147,7 +147,6 @@ fn instantiate_struct_field_ty(
     type_args: &[tast::Ty],
     field: &TastIdent,
 ) -> Option<tast::Ty> {
-    const COMPLETION_PLACEHOLDER: &str = "completion_placeholder";
     if struct_def.generics.len() != type_args.len() {
         super::util::push_error(
             diagnostics,
@@ -168,8 +167,6 @@ fn instantiate_struct_field_ty(
 
     if let Some((_, ty)) = struct_def.fields.iter().find(|(fname, _)| fname == field) {
         Some(substitute_ty_params(ty, &subst))
-    } else if field.0 == COMPLETION_PLACEHOLDER {
-        Some(tast::Ty::TUnit)
     } else {
         super::util::push_error(
             diagnostics,
